@@ -34,6 +34,8 @@ convergence statement about a numerical optimiser and is only exercised by the h
 namespace TrackpyV.Bounds
 open List
 
+deriving instance DecidableEq for Except
+
 /-! ## compute_bounds: the narrowest requested bound -/
 
 /-- Clause "the narrowest bound is taken" (lower side): `x` respects the computed lower bound iff
@@ -287,5 +289,211 @@ theorem never_raises_on_fit_failure (cfg : Cfg) (opt : Problem → OptOut)
     simp only [ho]
     exact ⟨_, rfl⟩
   · exact refineClusters_ok cfg opt hopt hmax clusters t 0
+
+/-! ## successful fits stay within the bounds (under the optimiser's contract) -/
+
+/-- THE ASSUMED CONTRACT of `scipy.optimize.minimize(method='SLSQP', bounds=…)`: a reported success
+lies inside the bounds it was given (in particular contains no NaN). -/
+def OptContract (opt : Problem → OptOut) : Prop :=
+  (∀ pb x dev, opt pb = .ok x dev → Forall₂ Within x pb.bounds) ∧ (∀ pb dev, opt pb ≠ .nanx dev)
+
+theorem finish_fitted (cfg : Cfg) (b blk : List (List (Option Rat))) (dev dev' : Option Rat)
+    (h : finish cfg b dev = .fitted blk dev') : blk = b := by
+  unfold finish at h
+  cases dev with
+  | none => simp at h; exact h.1.symm
+  | some d =>
+    simp only at h
+    split at h
+    · simp at h
+    · simp at h; exact h.1.symm
+
+theorem rounds_success (cfg : Cfg) (opt : Problem → OptOut) (hc : OptContract opt)
+    (groups : Option (List (List Nat))) (pgroups : List (List Nat)) (pb : Problem) (n : Nat)
+    (block0 : List (List Rat)) (hsm : cfg.specs.length = cfg.modes.length)
+    (hb : pb.bounds = computeBounds cfg.specs cfg.modes groups block0) :
+    ∀ (fuel k : Nat) (coords block1 : List (List Rat)), Shape block0 block1 →
+      ∀ blk dev, rounds cfg opt groups pgroups pb n fuel k coords block1 = .ok (.fitted blk dev) →
+      ∃ prev cols', blk = someBlock cols' ∧ Shape block0 prev ∧
+        ColsOK groups cfg.modes cfg.specs block0 prev cols'
+  | 0, _, _, _, _, _, _, h => by simp [rounds] at h
+  | fuel + 1, k, coords, block1, hs, blk, dev, h => by
+    unfold rounds at h
+    by_cases hp : prepOK cfg pgroups coords
+    · simp only [hp, Bool.not_true, Bool.false_eq_true, if_false] at h
+      cases ho : opt { pb with round := k, coords := coords } with
+      | fail => simp [ho] at h
+      | raise => simp [ho] at h
+      | nanx d => exact absurd ho (hc.2 _ _)
+      | ok x d =>
+        have hx : Forall₂ Within x (computeBounds cfg.specs cfg.modes groups block0) := by
+          have := hc.1 _ x d ho
+          simpa [hb] using this
+        have hcols := unpack_cols_ok groups cfg.modes cfg.specs block0 block1 x hs hx
+        simp only [ho] at h
+        split at h
+        · simp only [Except.ok.injEq] at h
+          exact ⟨block1, _, finish_fitted _ _ _ _ _ h, hs, hcols⟩
+        · split at h
+          · simp only [Except.ok.injEq] at h
+            exact ⟨block1, _, finish_fitted _ _ _ _ _ h, hs, hcols⟩
+          · exact rounds_success cfg opt hc groups pgroups pb n block0 hsm hb fuel (k + 1) _ _
+              (unpack_shape groups cfg.modes cfg.specs block0 block1 x hsm hs hx) blk dev h
+    · simp [hp] at h
+
+theorem shape_refl : ∀ b : List (List Rat), Shape b b
+  | [] => by simp [Shape]
+  | _ :: bs => ⟨rfl, shape_refl bs⟩
+
+/-- Clause "every successfully fitted feature stays within all requested and default bounds",
+ASSUMING the optimiser's contract.  If the fit of a block succeeds, the start block was finite and
+every written column `c'` satisfies `ColOK` against the start column `c0`:
+* mode `var` (1): entry by entry within `[lowOf s p, highOf s p]` of ITS OWN start value `p` — by
+  `bounds_narrowest_*` that is every requested bound and, by `default_bounds_*`, the defaults;
+* shared modes (global / cluster): one value per sharing group, within the packed bounds
+  `[min lows, max highs]` of the group — by `packed_respects_common_*` still within every absolute
+  bound and the default positivity;
+* mode `const` (0): unchanged.
+This holds after any number of rounds (the bounds are those of the START values throughout). -/
+theorem success_within_bounds (cfg : Cfg) (opt : Problem → OptOut) (hc : OptContract opt)
+    (hsm : cfg.specs.length = cfg.modes.length)
+    (groups : Option (List (List Nat))) (pgroups : List (List Nat)) (tag n : Nat)
+    (blockO blk : List (List (Option Rat))) (dev : Option Rat)
+    (h : fitBlock cfg opt groups pgroups tag n blockO = .ok (.fitted blk dev)) :
+    ∃ block0 prev cols', allFinite blockO = some block0 ∧ blk = someBlock cols' ∧
+      Shape block0 prev ∧ ColsOK groups cfg.modes cfg.specs block0 prev cols' := by
+  unfold fitBlock at h
+  cases hf : allFinite blockO with
+  | none => simp [hf] at h
+  | some block0 =>
+    simp only [hf] at h
+    split at h
+    · simp at h
+    · obtain ⟨prev, cols', h1, h2, h3⟩ :=
+        rounds_success cfg opt hc groups pgroups _ n block0 hsm rfl cfg.maxIter 0 _ block0
+          (shape_refl block0) blk dev h
+      exact ⟨block0, prev, cols', rfl, h1, h2, h3⟩
+
+/-! ## the defect found: infeasible bounds reach scipy -/
+
+/-- what scipy does with `lb > ub` (observed: `ValueError: An upper bound is less than the
+corresponding lower bound`), stated as a property of an optimiser -/
+def RaisesOnInfeasible (opt : Problem → OptOut) : Prop :=
+  ∀ pb, infeasible pb.bounds = true → opt pb = .raise
+
+/-- the configuration of the witness: image 40x50, mask radius 5, the user asks
+for the absolute window `x ∈ [5, 25]`; default modes (background per cluster, signal and position
+per feature, size constant) -/
+def witnessCfg (feas : Bool) : Cfg :=
+  { specs := validateBounds [("x", .pair (some 5) (some 25))] [5, 5]
+      [⟨"background", .background⟩, ⟨"signal", .signal⟩, ⟨"y", .pos 0⟩, ⟨"x", .pos 1⟩,
+       ⟨"size", .size⟩],
+    modes := [3, 1, 1, 1, 0], ndim := 2, shape := [40, 50], radius := [5, 5], maxIter := 10,
+    maxShift := 1, maxDev := 1, feasCheck := feas }
+
+/-- one feature at (y, x) = (15, 31): `lb = max(31-5, 5) = 26 > ub = min(31+5, 25) = 25` -/
+def witnessTable31 : Table :=
+  { cols := [[some 0], [some 180], [some 15], [some 31], [some 2]], cost := [Cost.unset] }
+
+/-- GENERAL (code as found, `feasCheck = false`): a finite block whose bounds are infeasible and
+whose start lies in the image makes the call raise, for every optimiser that behaves like scipy. -/
+theorem fitBlock_raises_on_infeasible (cfg : Cfg) (opt : Problem → OptOut)
+    (h : RaisesOnInfeasible opt) (groups : Option (List (List Nat))) (pgroups : List (List Nat))
+    (tag n : Nat) (blockO : List (List (Option Rat))) (block : List (List Rat))
+    (h1 : allFinite blockO = some block) (h2 : cfg.feasCheck = false)
+    (h3 : infeasible (computeBounds cfg.specs cfg.modes groups block) = true)
+    (h4 : prepOK cfg pgroups (coordCols cfg.ndim block) = true) (h5 : 0 < cfg.maxIter) :
+    fitBlock cfg opt groups pgroups tag n blockO = .error .optimiserRaised := by
+  unfold fitBlock
+  obtain ⟨k, hk⟩ := Nat.exists_eq_succ_of_ne_zero (Nat.pos_iff_ne_zero.mp h5)
+  simp only [h1, h2, hk, Bool.false_and, Bool.false_eq_true, if_false]
+  unfold rounds
+  simp only [h4, Bool.not_true, Bool.false_eq_true, if_false]
+  rw [h _ h3]
+
+/-- GENERAL (repaired code, `feasCheck = true`): the same block is a FAILED FIT for every
+optimiser (which is not even called). -/
+theorem fitBlock_fails_on_infeasible (cfg : Cfg) (opt : Problem → OptOut)
+    (groups : Option (List (List Nat))) (pgroups : List (List Nat))
+    (tag n : Nat) (blockO : List (List (Option Rat))) (block : List (List Rat))
+    (h1 : allFinite blockO = some block) (h2 : cfg.feasCheck = true)
+    (h3 : infeasible (computeBounds cfg.specs cfg.modes groups block) = true) :
+    fitBlock cfg opt groups pgroups tag n blockO = .ok .failed := by
+  unfold fitBlock
+  simp [h1, h2, h3]
+
+/-- WITNESS.  With the code as found, every optimiser that behaves like scipy on `lb > ub` makes
+the whole call raise: the fit of ONE feature that cannot succeed (x = 31, window [5, 25], radius 5:
+`lb = max(31-5, 5) = 26 > ub = min(31+5, 25) = 25`) aborts `refine_leastsq` — the negation of
+"never raises because a fit failed".  Replayed on the real code (corpus/C16). -/
+theorem infeasible_bounds_witness (opt : Problem → OptOut) (h : RaisesOnInfeasible opt) :
+    refineCtl (witnessCfg false) opt witnessTable31 [[0]] = .error .optimiserRaised := by
+  have hf : fitBlock (witnessCfg false) opt none [List.range [0].length] 0 [0].length
+      (extract witnessTable31 [0]) = .error .optimiserRaised :=
+    fitBlock_raises_on_infeasible (witnessCfg false) opt h none _ 0 _ _
+      [[0], [180], [15], [31], [2]] (by decide +kernel) rfl (by decide +kernel)
+      (by decide +kernel) (by decide)
+  have hm : (witnessCfg false).modes.any (fun m => decide (m = 2)) = false := by decide
+  unfold refineCtl
+  simp only [hm, Bool.false_eq_true, if_false, refineClusters, stepCluster, hf]
+
+/-- … and with the repair (`feasCheck = true`) the same input is a failed fit: values kept,
+cost NaN, for every optimiser. -/
+theorem infeasible_bounds_fail (opt : Problem → OptOut) :
+    refineCtl (witnessCfg true) opt witnessTable31 [[0]] =
+      .ok { witnessTable31 with cost := [Cost.nan] } := by
+  have hf : fitBlock (witnessCfg true) opt none [List.range [0].length] 0 [0].length
+      (extract witnessTable31 [0]) = .ok .failed :=
+    fitBlock_fails_on_infeasible (witnessCfg true) opt none _ 0 _ _
+      [[0], [180], [15], [31], [2]] (by decide +kernel) rfl (by decide +kernel)
+  have hm : (witnessCfg true).modes.any (fun m => decide (m = 2)) = false := by decide
+  unfold refineCtl
+  simp only [hm, Bool.false_eq_true, if_false, refineClusters, stepCluster, hf]
+  rfl
+
+/-! ## non-vacuity -/
+
+/-- the docstring's example `{'x': (2, 6), 'x_abs': (4, 6), 'x_rel': (1.5, 2.5)}` at x = 5:
+candidates low {1, 10/3, 2} -> 10/3, high {11, 12.5, 6} -> 6 -/
+example :
+    let s := specFor [("x", .pair (some 2) (some 6)), ("x_abs", .pair (some 4) (some 6)),
+                      ("x_rel", .pair (some (3/2)) (some (5/2)))] [5, 5] ⟨"x", .pos 1⟩
+    lowOf s 5 = some (10/3) ∧ highOf s 5 = some 6 := by decide +kernel
+
+/-- `bounds_contain_start` is not vacuous, and its hypotheses matter: a relative bound on a
+negative start is infeasible -/
+example : inB 5 (lowOf ⟨(some 2, some 6), (some 4, some 6), (some (3/2), some (5/2))⟩ 5,
+                 highOf ⟨(some 2, some 6), (some 4, some 6), (some (3/2), some (5/2))⟩ 5) = true ∧
+    infeasible [(lowOf ⟨(none, none), (none, none), (some 2, some 2)⟩ (-1),
+                 highOf ⟨(none, none), (none, none), (some 2, some 2)⟩ (-1))] = true := by
+  decide +kernel
+
+/-- an optimiser satisfying the contract exists (it returns the lower bounds — here all given),
+and a two-cluster run in which the first cluster fails (start outside the image) and the second
+succeeds: first row untouched with cost NaN, second row written -/
+def demoOpt (pb : Problem) : OptOut := .ok (pb.bounds.map (fun b => b.1.getD 0)) (some (1/100))
+
+example : OptContract (fun _ => OptOut.fail) := by
+  constructor
+  · intro pb x dev h
+    cases h
+  · intro pb dev h
+    cases h
+
+def demoCfg : Cfg :=
+  { specs := validateBounds [] [5, 5]
+      [⟨"background", .background⟩, ⟨"signal", .signal⟩, ⟨"y", .pos 0⟩, ⟨"x", .pos 1⟩,
+       ⟨"size", .size⟩],
+    modes := [3, 1, 1, 1, 0], ndim := 2, shape := [40, 50], radius := [5, 5], maxIter := 10,
+    maxShift := 100, maxDev := 1, feasCheck := true }
+
+example :
+    refineCtl demoCfg demoOpt
+      { cols := [[some 0, some 0], [some 180, some 180], [some 15, some 15], [some 70, some 30],
+                 [some 2, some 2]], cost := [Cost.unset, Cost.unset] } [[0], [1]] =
+    .ok { cols := [[some 0, some (1/10000000)], [some 180, some (1/10000000)], [some 15, some 10],
+                   [some 70, some 25], [some 2, some 2]],
+          cost := [Cost.nan, Cost.val (1/100)] } := by
+  decide +kernel
 
 end TrackpyV.Bounds
